@@ -761,6 +761,38 @@ func checkBlockMapMutation(c *Ctx, rule string) {
 			}
 		})
 		if len(blocks) == 0 {
+			// the block map as a type with a look-up method (bm.at(num) returning the cached *eth.Block)
+			reg.AllInstrs(func(in ssa.Instruction) {
+				call, ok := in.(*ssa.Call)
+				if !ok {
+					return
+				}
+				h := staticCallee(call)
+				if h == nil || h.Signature.Recv() == nil || !isRepoFunc(h) || h.Pkg != fn.Pkg {
+					return
+				}
+				rn := namedOf(h.Signature.Recv().Type())
+				if rn == nil || rn.Obj().Name() != "blockmap" {
+					return
+				}
+				var v ssa.Value = call
+				if tup, isTup := call.Type().(*types.Tuple); isTup && tup.Len() > 0 {
+					v = nil
+					for _, ref := range *call.Referrers() {
+						if e, ok := ref.(*ssa.Extract); ok && e.Index == 0 {
+							v = e
+						}
+					}
+				}
+				if v == nil {
+					return
+				}
+				if pt, ok := v.Type().Underlying().(*types.Pointer); ok && repoNamedIs(pt.Elem(), "eth", "Block") {
+					blocks = append(blocks, v)
+				}
+			})
+		}
+		if len(blocks) == 0 {
 			c.Violation(rule, fnName(fn)+"/block-from-map", fn.Pos(), "no *eth.Block taken from the block map (the routine's shape changed)")
 			continue
 		}
